@@ -457,6 +457,10 @@ def record_results(ck, pid, scenarios, by_id, bad, ext):
     """divergences -> violations / known findings; drift -> ck.drift"""
     for b in bad:
         sc = scenarios[b["sc"] - 1]
+        if sc.get("ext_only"):
+            # scenario outside the fault alphabet of the listed properties (e.g. peer restart): report as drift
+            ck.drift.append({"rule": b["rule"], "scenario": sc["id"], "ext_scenario": sc["ext_only"], "detail": b.get("d")})
+            continue
         sig = {"sub": "sctp", "rule": b["rule"], "faults": fault_sig(sc),
                "chunks": sorted({f["k"] for f in sc["faults"]})}
         rec = {"rule": b["rule"], "detail": b.get("d"), "at_event_seq": b["i"], "scenario": sc}
@@ -477,7 +481,7 @@ def confirm_liveness(ck, pid, scenarios, bad):
     keep = []
     stalled = {}
     for b in bad:
-        if b["rule"] == "EventuallyDelivered":
+        if b["rule"] == "EventuallyDelivered" and not scenarios[b["sc"] - 1].get("ext_only"):
             stalled[b["sc"]] = b
         else:
             keep.append(b)
